@@ -1687,13 +1687,22 @@ class AliasOracle(Observer):
                 if not should_be_same and lc["result_is_src"]:
                     if w.violation("C17", "C17.astensor_identity", f"step {w.nstep}: {how}(t) returned t itself although dtype/constant differ", tag=f"C17.astensor_identity/{how}/spurious"):
                         return
+            if how == "astype" and not lc["copy"]:
+                # astype(copy=False): the input itself only when dtype and constant are already satisfied
+                should_be_same = lc["dtype_match"] and lc["const_match"]
+                if should_be_same and not lc["result_is_src"]:
+                    if w.violation("C17", "C17.astype_identity", f"step {w.nstep}: astype(copy=False) with matching dtype/constant did not return the tensor itself", tag="C17.astype_identity/nocopy"):
+                        return
+                if not should_be_same and lc["result_is_src"]:
+                    if w.violation("C17", "C17.astype_identity", f"step {w.nstep}: astype(copy=False) returned the tensor itself although dtype/constant differ", tag="C17.astype_identity/nocopy/spurious"):
+                        return
             if how in ("copy", "astype", "tensor_copy") and ev.get("out") in w.T:
                 r = w.T[ev["out"]]
                 if how != "astype" or not lc["result_is_src"]:
                     if r.creator is not None or r.base is not None:
                         if w.violation("C17", "C17.detached", f"step {w.nstep}: the result of {how} is attached to a graph (creator/base set)", tag=f"C17.detached/{how}"):
                             return
-                    if lc["shares"]:
+                    if lc["shares"] and not (how == "astype" and not lc["copy"] and lc["dtype_match"]):
                         if w.violation("C17", "C17.detached_memory", f"step {w.nstep}: the result of {how} shares memory with its source", tag=f"C17.detached_memory/{how}"):
                             return
             if how == "asarray" and not lc.get("is_data", True) and lc["dtype_match"]:
